@@ -328,7 +328,6 @@ func (o *ovsdbClient) connect(ctx context.Context, reconnect bool) error {
 		}
 	}
 
-	go o.handleDisconnectNotification()
 	if o.options.inactivityTimeout > 0 {
 		o.handlerShutdown.Add(1)
 		go o.handleInactivityProbes()
@@ -344,6 +343,9 @@ func (o *ovsdbClient) connect(ctx context.Context, reconnect bool) error {
 			close(eventStopChan)
 		}(db)
 	}
+	// started once every handler is registered: it waits for them, and a
+	// connection that is lost at once must not let it wait too early
+	go o.handleDisconnectNotification()
 
 	o.connected = true
 	return nil
